@@ -127,6 +127,54 @@ def break_ancestor(r, rng, j, how="unknown_parent"):
     return r
 
 
+LAYOUTS = ["rel-sub", "rel-deep", "rel-mixed", "abs-real", "abs-real-sib", "abs-moved-sib", "abs-moved-pvm", "mixed"]
+
+
+def relocate(r, layout, base="image"):
+    """Directory layout knob: every storage keeps its images in a directory of its own, under file names that are the SAME in every
+    storage (`<base>.<layer>.hds`); the descriptor names them with a directory component. `file` of an image stays the place where
+    the writer puts it (relative to the .hdd directory, also the key of Truth.files), `ref` is what <File> says:
+      rel-sub        part<s>/<name>                        relative sub directory
+      rel-deep       parts/<s>/data/<name>                 relative, several levels
+      rel-mixed      storage 0 flat in the .hdd directory, the others in part<s>/
+      abs-real       {HDD}/part<s>/<name>                  absolute and existing (the real directory, filled in by write_dir)
+      abs-real-sib   {PVM}/part<s>.hdd/<name>              absolute and existing, a sibling .hdd directory per storage
+      abs-moved-sib  /nonexistent/orig.pvm/part<s>.hdd/<name>   absolute, not existing: found as <.pvm>/part<s>.hdd/<name>
+      abs-moved-pvm  /nonexistent/vm<s>.pvm/disk.hdd/<name>     absolute, not existing: found as <..>/vm<s>.pvm/disk.hdd/<name>
+      mixed          storage s uses rel-sub / abs-real / abs-moved-sib / rel-deep in turn
+    (only locations that HDD._open_image documents; no file of that name in the .hdd directory itself for the moved forms).
+    Plain images get pairwise different pattern seeds, so that every storage's bytes identify the storage."""
+    for s, st in enumerate(r["storages"]):
+        how = layout if layout != "mixed" else ["rel-sub", "abs-real", "abs-moved-sib", "rel-deep"][s % 4]
+        for im in st["images"]:
+            mid = im["file"].split(".", 1)[1].rsplit(".", 1)[0]
+            name = f"{base}.{mid}.hds"
+            ref = None
+            if how == "rel-sub":
+                loc = f"part{s}/{name}"
+            elif how == "rel-deep":
+                loc = f"parts/{s}/data/{name}"
+            elif how == "rel-mixed":
+                loc = name if s == 0 else f"part{s}/{name}"
+            elif how == "abs-real":
+                loc, ref = f"part{s}/{name}", "{HDD}" + f"/part{s}/{name}"
+            elif how == "abs-real-sib":
+                loc, ref = f"../part{s}.hdd/{name}", "{PVM}" + f"/part{s}.hdd/{name}"
+            elif how == "abs-moved-sib":
+                loc, ref = f"../part{s}.hdd/{name}", f"/nonexistent/orig.pvm/part{s}.hdd/{name}"
+            elif how == "abs-moved-pvm":
+                loc, ref = f"../../vm{s}.pvm/disk.hdd/{name}", f"/nonexistent/vm{s}.pvm/disk.hdd/{name}"
+            else:
+                raise ValueError(layout)
+            im["file"], im["ref"] = loc, ref or loc
+            im["seed"] = (im["seed"] // 4 * 4 + s) % 256
+            if im.get("layer"):
+                im["layer"]["seed"] = (im["layer"]["seed"] // 4 * 4 + s) % 256
+    r["abs_paths"] = False
+    r["layout"] = layout
+    return r
+
+
 def render_xml(r, root_dir="/nonexistent/orig.pvm/orig.hdd"):
     out = ['<?xml version="1.0" encoding="UTF-8"?>', '<Parallels_disk_image Version="1.0">', " <Disk_Parameters><Disk_size>%d</Disk_size><Cylinders>1</Cylinders><Heads>16</Heads><Sectors>63</Sectors></Disk_Parameters>" % r["storages"][-1]["end"], " <StorageData>"]
     for i in r["xml_order"]:
@@ -134,6 +182,8 @@ def render_xml(r, root_dir="/nonexistent/orig.pvm/orig.hdd"):
         out.append(f"  <Storage><Start>{s['start']}</Start><End>{s['end']}</End><Blocksize>2048</Blocksize>")
         for im in s["images"]:
             f = (root_dir + "/" + im["file"]) if r["abs_paths"] else im["file"]
+            if "ref" in im:          # relocate(): {HDD} / {PVM} = the directory the descriptor is written to / its parent
+                f = im["ref"].replace("{HDD}", root_dir).replace("{PVM}", os.path.dirname(root_dir))
             out.append(f"   <Image><GUID>{im['guid']}</GUID><Type>{im['type']}</Type><File>{f}</File></Image>")
         out.append("  </Storage>")
     out.append(" </StorageData>")
@@ -205,8 +255,10 @@ class Truth:
     def write_dir(self, d):
         os.makedirs(d, exist_ok=True)
         with open(os.path.join(d, "DiskDescriptor.xml"), "w") as f:
-            f.write(self.xml)
+            f.write(render_xml(self.r, os.path.abspath(d)) if self.r.get("layout") else self.xml)
         for name, im in self.files.items():
+            if "/" in name:
+                os.makedirs(os.path.dirname(os.path.join(d, name)), exist_ok=True)
             im.write_to(os.path.join(d, name))
 
     def storage_tokens(self):
